@@ -430,6 +430,18 @@ fn main() {
                     };
                     let res = sc.kcase(&format!("evicted-{}", pk), &messy, b, &p);
                     check(&mut sc, "partially-evicted", &res, &mut stats);
+                    // … and again on what that run wrote back (a write-back that pairs names with the wrong digests gives
+                    // the right root once and a wrong one from then on), at the same and at the last beacon
+                    let res = sc.kcase(&format!("evicted-again-{}", pk), &messy, b, &p);
+                    check(&mut sc, "partially-evicted, second run", &res, &mut stats);
+                    if b < last {
+                        let ref_last = match reference.get(&last) { Some(x) => x.clone(), None => sc.kcase("clean-nocache", &clean, last, &Provider::None) };
+                        let res = sc.kcase(&format!("evicted-then-last-{}", pk), &messy, last, &p);
+                        *stats.entry("S.cache-history").or_insert(0) += 1;
+                        if res != ref_last {
+                            sc.sfail("cache-dependent", &format!("beacon {} provider {} history partially-evicted at {}, then the last beacon: {} but without cache {}", last, pk, b, res, ref_last), &case_txt);
+                        }
+                    }
                 }
                 // K only: a cache holding entries under other names (unpadded numbers, extra files) and a
                 // stale entry for one covered file — the model says which ones are used
